@@ -41,24 +41,33 @@ BIG_RUN = 10 ** 6
 
 
 # ---------------------------------------------------------------------------- the value formula
+PAD = ['']
+
+
 def content(tag, k, vn, target, epoch, ins):
     """content of output value number `k` (named `vn`) of algorithm `tag` on `target`.
     `ins` = [(source tag, value name, content found)] in declaration order; `epoch` is None unless
     the algorithm is a root."""
     use = list(ins) if k == 0 else list(ins)[: len(ins) // 2]
+    n = len(PAD[0])   # bulky values: a long constant head, the distinguishing part at the very end
+    use = [tuple(c[n:] if isinstance(c, str) and n and c.startswith(PAD[0]) else c for c in u) for u in use]
     ep = None if epoch is None else epoch // (k + 1)
     h = hashlib.sha1(repr((tag, k, target, ep, use)).encode()).hexdigest()[:12]
-    return f'{tag}.{vn}@{target}#{h}'
+    return f'{PAD[0]}{tag}.{vn}@{target}#{h}'
 
 
 CONTENT_SRC = '''
 import hashlib
 
+PAD = ['']
+
 def content(tag, k, vn, target, epoch, ins):
     use = list(ins) if k == 0 else list(ins)[: len(ins) // 2]
+    n = len(PAD[0])   # bulky values: a long constant head, the distinguishing part at the very end
+    use = [tuple(c[n:] if isinstance(c, str) and n and c.startswith(PAD[0]) else c for c in u) for u in use]
     ep = None if epoch is None else epoch // (k + 1)
     h = hashlib.sha1(repr((tag, k, target, ep, use)).encode()).hexdigest()[:12]
-    return f'{tag}.{vn}@{target}#{h}'
+    return f'{PAD[0]}{tag}.{vn}@{target}#{h}'
 '''
 
 CTL_SRC = CONTENT_SRC + '''
@@ -661,6 +670,7 @@ def run_scenario(store, sc, seed=0, model=None):
         w.early = float(sc.get('overlap', 0))
         w.hold = float(sc.get('hold', 0))
         w.cycle = int(sc.get('cycle', 0))
+        PAD[0] = w.ctl.PAD[0] = 'bulk:' + 'x' * int(sc['bulk']) if sc.get('bulk') else ''
         w.organize([tag_of(a) for a in algs], targets)
         w.script([tuple(s) for s in sc.get('script', [])])
         what, b = 'initial', None
@@ -684,7 +694,7 @@ def run_scenario(store, sc, seed=0, model=None):
                 ran = [(e[0], e[1]) for e in w.executed[n0:]]
                 w.problems.append(('C02:e2e-stale-result',
                                    f'after {what} {b} at quiescence {len(bad)} stored value(s) differ from a from-scratch '
-                                   f'run, e.g. {k[1]}.sv.{k[2]} on {k[0]}: stored {got.get(k)!r}, from scratch {want[k]!r}; '
+                                   f'run, e.g. {k[1]}.sv.{k[2]} on {k[0]}: stored {str(got.get(k))[-60:]!r}, from scratch {str(want[k])[-60:]!r}; '
                                    f'ran in this phase: {ran}'))
                 break
             if not w.later_bumps:
@@ -698,6 +708,7 @@ def run_scenario(store, sc, seed=0, model=None):
             model.append(c02_model.case_of(w, sc) if w.outside is None else {'outside': w.outside})
         return w.problems, stats
     finally:
+        PAD[0] = ''
         w.close()
         logging.disable(logging.NOTSET)
 
@@ -815,6 +826,8 @@ def run(ctx, res):
     # engines with analyses (aspects over every target, results under '__all__')
     ra = common.rng(ctx['seed'], 'C02e2e-aspects')
     scenarios += [aspect_shape(), dict(aspect_shape(), overlap=0.7, hold=0.4)]
+    # values of more than 1 MiB that differ only at their very end (novelty is decided on the whole content)
+    scenarios.append(dict(overlap_shape(), overlap=0, bulk=(1 << 20) + 4096))
     for i in range(60 if thorough else 4):
         sc = gen_scenario(ra, small=not thorough, aspects=True)
         scenarios.append(dict(sc, overlap=0.5 if i % 2 else 0, hold=0.4 if i % 3 == 0 else 0))
